@@ -101,7 +101,7 @@ def run(tier: str, seed: int) -> int:
         tlc.cleanup(res)
     check_projectors(run_, ex, jnp, rng, tier)
     check_rollouts(run_, ex, jnp, rng, tier)
-    shutil.rmtree(tlc.SCRATCH, ignore_errors=True)
+    tlc.cleanup_mine()
     run_.rule = ("TLC: LerayOK (divergence-free, idempotent, identity on solenoidal fields and on the mean) and Rot3dOK on every basis sum; conformance: "
                  "projector cases (D, N, draw), dense rot3d outputs, monitored 5-step rollouts per (class, N, order, parameters) validated by TLC")
     run_.assumptions = ["spectral divergence measured with the library's derivative operator (bound by C05/C04)", "Nyquist-free fields for the projectors, as the property states"]
